@@ -194,4 +194,55 @@ theorem decLoop_spec (wb : Option Nat) (n : Nat) : ∀ (fuel : Nat) (heap : List
       rw [this, hext]
       simp
 
+/-- as long as the weight sum fits, the weight type is irrelevant -/
+theorem encLoop_wb_irrelevant (wb : Option Nat) : ∀ (fuel : Nat) (heap : List (Nat × Nat))
+    (arr : List Nat) (next : Nat), NoOverflow wb heap →
+    encLoop wb fuel heap arr next = encLoop none fuel heap arr next
+  | 0, _, _, _, _ => by simp [encLoop]
+  | fuel + 1, heap, arr, next, hno => by
+    cases e1 : popMin heap with
+    | none => simp [encLoop, e1]
+    | some ah =>
+      obtain ⟨a, h1⟩ := ah
+      cases e2 : popMin h1 with
+      | none => simp [encLoop, e1, e2]
+      | some bh =>
+        obtain ⟨b, h2⟩ := bh
+        obtain ⟨hadd, hno'⟩ := addW_ok hno e1 e2 next
+        have hadd' : addW none a.1 b.1 = .ok (a.1 + b.1) := rfl
+        simp only [encLoop, e1, e2, hadd, hadd']
+        split
+        · split
+          · split
+            · rfl
+            · next next' _ => exact encLoop_wb_irrelevant wb fuel _ _ _ (by
+                cases wb with
+                | none => trivial
+                | some k => simpa [NoOverflow] using hno')
+          · rfl
+        · rfl
+
+theorem decLoop_wb_irrelevant (wb : Option Nat) : ∀ (fuel : Nat) (heap acc : List (Nat × Nat))
+    (next : Nat), NoOverflow wb heap →
+    decLoop wb fuel heap acc next = decLoop none fuel heap acc next
+  | 0, _, _, _, _ => by simp [decLoop]
+  | fuel + 1, heap, acc, next, hno => by
+    cases e1 : popMin heap with
+    | none => simp [decLoop, e1]
+    | some ah =>
+      obtain ⟨a, h1⟩ := ah
+      cases e2 : popMin h1 with
+      | none => simp [decLoop, e1, e2]
+      | some bh =>
+        obtain ⟨b, h2⟩ := bh
+        obtain ⟨hadd, hno'⟩ := addW_ok hno e1 e2 next
+        have hadd' : addW none a.1 b.1 = .ok (a.1 + b.1) := rfl
+        simp only [decLoop, e1, e2, hadd, hadd']
+        split
+        · rfl
+        · next next' _ => exact decLoop_wb_irrelevant wb fuel _ _ _ (by
+            cases wb with
+            | none => trivial
+            | some k => simpa [NoOverflow] using hno')
+
 end CV.Huff
